@@ -1,6 +1,8 @@
 import AcraModel.Envelope.Poison
 import AcraModel.Crypto.Shim
 import Driver.C01
+import AcraModel.Keystore.V1CacheKeys
+import AcraModel.Generated.KeyNames
 /-! Driver ops for C15 (poison records). -/
 namespace Driver.C15
 open AcraModel AcraModel.Envelope Driver.C01
@@ -11,6 +13,53 @@ def scanT : ScanOut × Nat → String
   | (.ok b _, a) => s!"ok {hexOf b} {a}"
   | (.fatal, a) => s!"fatal {a}"
   | (.panic, _) => "panic"
+
+/-! ### the v1 key store scenario: `v1store <cache> <spelling> <step>…`
+
+Steps: `g:pp` / `g:ps` rotate a poison key through the handle under test; `n` a detection attempt on ordinary data (a
+client AcraStruct and a client AcraBlock: the detector reads both poison key lists); `d:<struct|block>:<gen>:<emb>` a
+poison record made under generation `gen` passes the detector (alarm iff the store offers that generation); `x` cache reset.
+The store is `Keystore/V1Cache.lean` with the refreshes addressed by the regenerated cache-key spellings (`V1.stepK`),
+for the directory spelling `0` canonical, `1` trailing `/`, `2` trailing `//`, `3` a `/./` component. -/
+
+open AcraModel.Keystore in
+def storeDir : String → Option String
+  | "0" => some "/tmp/verif/ks"
+  | "1" => some "/tmp/verif/ks/"
+  | "2" => some "/tmp/verif/ks//"
+  | "3" => some "/tmp/verif/./ks"
+  | _ => none
+
+open AcraModel.Keystore in
+def storeSteps (hp hs : Bool) : V1 → List String → Option (List String)
+  | _, [] => some []
+  | st, t :: ts =>
+    match t.splitOn ":" with
+    | ["g", "pp"] => let (st', o) := st.stepK hp hs (.gen ppSlot); (storeSteps hp hs st' ts).map ((if o == .ok then "ok" else "err") :: ·)
+    | ["g", "ps"] => let (st', o) := st.stepK hp hs (.gen psSlot); (storeSteps hp hs st' ts).map ((if o == .ok then "ok" else "err") :: ·)
+    | ["x"] => let (st', _) := st.stepK hp hs .reset; (storeSteps hp hs st' ts).map ("ok" :: ·)
+    | ["n"] =>
+      let (st1, _) := st.stepK hp hs (.all ppSlot)
+      let (st2, _) := st1.stepK hp hs (.all psSlot)
+      (storeSteps hp hs st2 ts).map ("a0" :: ·)
+    | ["d", k, gen, _emb] =>
+      match (if k = "struct" then some ppSlot else if k = "block" then some psSlot else none), gen.toNat? with
+      | some slot, some g =>
+        let (st', o) := st.stepK hp hs (.all slot)
+        let alarm := match o with | .keys l => l.contains g | _ => false
+        (storeSteps hp hs st' ts).map ((if alarm then "a1" else "a0") :: ·)
+      | _, _ => none
+    | _ => none
+
+open AcraModel.Keystore in
+def handleStore (cache spelling : String) (steps : List String) : Option String := do
+  let c ← cache.toInt?
+  let dir ← storeDir spelling
+  let pair := Generated.KeyNames.v1PoisonKeyName
+  let hp := refreshHits "SaveKeyPairWithFilename" dir pair
+  let hs := refreshHits "generateAndSaveSymmetricKey" dir (pair ++ "_sym")
+  let out ← storeSteps hp hs (V1.init c) steps
+  pure (" ".intercalate out)
 
 def handle (op : String) (args : List String) : Option String :=
   match op, args with
@@ -26,6 +75,11 @@ def handle (op : String) (args : List String) : Option String :=
         | .ok m => s!"ok {hexOf m} {a}"
         | .err => s!"err {a}"
         | .panic => "panic")
+  | "v1store", cache :: spelling :: steps => handleStore cache spelling steps
+  | "clean", [p] => do
+      let b ← ofHex p
+      let str := String.mk (b.map fun x => Char.ofNat x.toNat)
+      pure (hexOf ((AcraModel.Keystore.cleanPath str).toList.map fun ch => UInt8.ofNat ch.toNat))
   | _, _ => none
 
 end Driver.C15
